@@ -291,6 +291,23 @@ func (m *Machine) ActSaveRetention(t *rapid.T) {
 			m.fail("C12", "after a save GET /pipelines/jobs lists a job the runner does not report")
 		}
 	}
+	// logs: no directory of a job that is no longer reported (also one that an earlier save removed - a save that
+	// failed in the store, say - and whose logs were to go with it)
+	for dir := range logs1 {
+		id, err := uuid.FromString(dir)
+		if err != nil {
+			continue
+		}
+		if _, reported := s1.Jobs[id]; !reported {
+			// (a job that was purged while it executed - its pipeline was not defined then - goes on writing)
+			if rec := m.w.Jobs[id]; rec != nil && rec.MaybePurged {
+				continue
+			}
+			if _, before := s0.Jobs[id]; !before {
+				m.fail("C12", "after a save there are logs of job %s, which had been removed by an earlier save", label(id))
+			}
+		}
+	}
 	// logs: removed jobs' directories gone, kept jobs' files untouched
 	for id := range s0.Jobs {
 		_, still := s1.Jobs[id]
